@@ -105,6 +105,125 @@ def asan_death(prop, r):
 ASAN_ENV = {"ASAN_OPTIONS": "halt_on_error=1:abort_on_error=0:detect_leaks=0:exitcode=77", "RUST_BACKTRACE": "0"}
 
 
+SIGNAMES = {4: "SIGILL", 6: "SIGABRT", 7: "SIGBUS", 8: "SIGFPE", 9: "SIGKILL", 11: "SIGSEGV", 24: "SIGXCPU"}
+
+
+def c20_runner(binp, prop, tier, seed, extra, nshards, run, root, work, env0, log):
+    """Like run_workers, but a worker that dies is restarted after the case it died in; the death is
+    attributed to that case through the BEGIN/END journal and reported as a violation record."""
+    import signal
+    _os.makedirs(work, exist_ok=True)
+    env = dict(env0)
+    env.update(run.get("env") or {})
+    tag = "." + run["variant"] + run.get("tag", "")
+    deadline = _time.time() + run.get("watchdog", 900)
+    state = []
+    for k in range(nshards):
+        state.append({"k": k, "start_after": None, "proc": None, "parts": [], "deaths": [], "attempt": 0, "done": False, "status": "ok"})
+
+    def launch(st):
+        out = _os.path.join(work, f"{prop}{tag}.{st['k']}.{st['attempt']}.json")
+        jr = _os.path.join(work, f"{prop}{tag}.{st['k']}.journal")
+        if st["attempt"] == 0 and _os.path.exists(jr):
+            _os.remove(jr)
+        if _os.path.exists(out):
+            _os.remove(out)
+        argv = [binp, prop, "--tier", tier, "--seed", str(seed), "--shard", f"{st['k']}/{nshards}", "--out", out, "--journal", jr] + extra
+        if st["start_after"] is not None:
+            argv += ["--start-after", str(st["start_after"])]
+        errp = _os.path.join(work, f"{prop}{tag}.{st['k']}.{st['attempt']}.err")
+        st["proc"] = _sp.Popen(argv, cwd=root, env=env, stdout=_sp.DEVNULL, stderr=open(errp, "w"))
+        st["out"], st["journal"], st["errp"] = out, jr, errp
+
+    for st in state:
+        launch(st)
+    while any(not st["done"] for st in state):
+        for st in state:
+            if st["done"]:
+                continue
+            try:
+                st["proc"].wait(timeout=0.2)
+            except _sp.TimeoutExpired:
+                if _time.time() > deadline:
+                    st["proc"].kill()
+                    st["proc"].wait()
+                    st["done"] = True
+                    st["status"] = "watchdog"
+                continue
+            rc = st["proc"].returncode
+            if rc == 0 and _os.path.exists(st["out"]):
+                st["parts"].append(st["out"])
+                st["done"] = True
+                continue
+            # died: find the case that was in progress
+            last_b, cls, head = None, "", ""
+            try:
+                for line in open(st["journal"]):
+                    f = line.split()
+                    if f and f[0] == "B":
+                        rest = line.split(" ", 2)[2] if len(f) > 2 else ""
+                        last_b, cls, head = int(f[1]), rest.split(" | ")[0].strip(), rest.split(" | ", 1)[1].strip() if " | " in rest else ""
+                    elif f and f[0] == "E" and last_b == int(f[1]):
+                        last_b = None
+            except FileNotFoundError:
+                pass
+            err = open(st["errp"]).read()[-4000:]
+            sig = -rc if rc is not None and rc < 0 else None
+            if last_b is None or st["attempt"] > 40:
+                st["done"] = True
+                st["status"] = f"died rc={rc} outside any case: {err[-300:]}"
+                continue
+            st["deaths"].append({"case": last_b, "class": cls, "input_head": head, "rc": rc, "signal": SIGNAMES.get(sig, str(sig)), "stderr_tail": err[-1500:]})
+            st["start_after"] = last_b
+            st["attempt"] += 1
+            launch(st)
+    results = []
+    for st in state:
+        data = {"counters": {}, "distinct": [], "samples": [], "violations": [], "notes": [], "lists": {}, "exhaustive": None}
+        for pth in st["parts"]:
+            try:
+                d = _json.load(open(pth))
+            except Exception:
+                continue
+            for k2, v in d["counters"].items():
+                data["counters"][k2] = max(data["counters"].get(k2, 0), v) if k2.startswith("max.") else data["counters"].get(k2, 0) + v
+            data["distinct"].extend(d["distinct"])
+            data["samples"].extend(d["samples"])
+            data["violations"].extend(d["violations"])
+            data["notes"].extend(d.get("notes", []))
+            for k2, v in (d.get("lists") or {}).items():
+                data["lists"].setdefault(k2, []).extend(v)
+        for dd in st["deaths"]:
+            how = dd["signal"] if dd["signal"] not in (None, "None") else f"exit code {dd['rc']}"
+            kind = "process_killed_" + str(how).replace(" ", "_")
+            if "memory allocation of" in dd["stderr_tail"]:
+                kind = "process_aborted_on_allocation_failure"
+            if "stack overflow" in dd["stderr_tail"] or "has overflowed its stack" in dd["stderr_tail"]:
+                kind = "process_aborted_on_stack_overflow"
+            if "AddressSanitizer" in dd["stderr_tail"]:
+                kind = "asan_report"
+            data["violations"].append({"property": prop, "kind": kind, "tags": [dd["class"], run["variant"]],
+                                       "detail": {"class": dd["class"], "case": dd["case"], "input_head": dd["input_head"], "variant": run["variant"], "stderr_tail": dd["stderr_tail"][-700:]},
+                                       "replay": {"seed": seed, "case": dd["case"], "tier": tier, "args": []}})
+            data["counters"]["worker_deaths"] = data["counters"].get("worker_deaths", 0) + 1
+        results.append({"shard": st["k"], "status": st["status"], "rc": 0, "data": data, "stderr": ""})
+    return results
+
+
+def c20_join(prop, tier, seed, lists, results):
+    """overflow oracle: the chk variant panicked with an arithmetic overflow on case x AND the rel variant
+    built a usable engine for x  =>  a result was returned after an internal overflow"""
+    out = {"violations": [], "counters": {}}
+    chk_over = set(lists.get(("chk", "overflow_panic"), []))
+    rel_usable = set(lists.get(("rel", "usable"), []))
+    out["counters"]["chk_overflow_panics"] = len(chk_over)
+    for c in sorted(chk_over & rel_usable)[:50]:
+        out["violations"].append({"property": prop, "kind": "result_returned_after_internal_arithmetic_overflow", "tags": ["overflow_oracle"],
+                                  "detail": {"case": c, "explanation": "overflow-checks build panicked with an arithmetic overflow on this input; the release build returned a usable engine"},
+                                  "replay": {"seed": seed, "case": c, "tier": tier, "args": []}})
+    return out
+
+
 PROPS = {
     "C01": {
         "eval_counter": "token_checks",
@@ -414,5 +533,27 @@ PROPS = {
         "assumptions": ["HF added-token matching inside plain text is adapter policy (excluded by the property text) and is not asserted"],
         "quick": {"runs": [q(deadline=45)], "floor": {"text_cases": 800, "ref_cases": 600, "positions_checked": 3000, "tokenize_checks": 300, "distinct_nontrivial": 900}},
         "thorough": {"runs": [q(deadline=1200, watchdog=3600)], "floor": {"text_cases": 15000, "ref_cases": 10000}},
+    },
+    "C20": {
+        "runner": c20_runner,
+        "join": c20_join,
+        "eval_counter": "cases",
+        "case_counter": "cases",
+        "rule": "case = hostile input of one of ~30 classes (random bytes; random Lark token soup; byte-level and JSON-tree mutations of the "
+                "corpus; nesting to depth 10..100000 of ( ) [ ] ~ regex groups allOf items; minItems/maxItems/minLength/maxLength/"
+                "min/maxProperties and regex / Lark repeat counts up to 2^32 and 2^64-1; nested {n}{n}; multipleOf pairs whose lcm "
+                "overflows u32; numeric extremes; 1 MB literal; 20000 properties; $ref cycles and dangling refs; parametric conditions nested "
+                "3000 deep and bit indices beyond 64; random slice lists; degenerate vocabularies), built under default or very tight "
+                "limits, followed by 40 random API calls (mask, commit from the mask, arbitrary token ids incl. u32::MAX, validate, "
+                "rollback, ff tokens). Each case runs on a 2 MiB-stack thread in a worker process with RLIMIT_AS 8 GiB and a 120 s "
+                "per-case RLIMIT_CPU budget (20 s in the quick tier); a BEGIN/END journal attributes a dead worker to its case and the worker is restarted after "
+                "it. Oracles: death by signal / abort / stack overflow / allocation failure => violation; panic during a LEGAL call on a "
+                "built engine => violation; a failed engine answering a mask or accepting a token => violation; overflow oracle: the "
+                "overflow-checks build panics with an arithmetic overflow on x while the release build returns a usable engine for x => "
+                "violation. evaluations = cases. Non-trivial = case whose engine was built and driven; distinct by input.",
+        "assumptions": ["wall-clock watchdog => inconclusive; CPU budget via RLIMIT_CPU (SIGXCPU => violation 'loops without bound')"],
+        "quick": {"runs": [q(deadline=60, watchdog=900), dict(q(deadline=60, watchdog=900), variant="chk")], "floor": {"cases": 500, "engines_built": 150, "distinct_nontrivial": 100}},
+        "thorough": {"runs": [q(deadline=1500, watchdog=5400), dict(q(deadline=1500, watchdog=5400), variant="chk"), dict(q(deadline=900, watchdog=5400), variant="asan", env=ASAN_ENV)],
+                     "floor": {"cases": 50000}},
     },
 }
